@@ -8,6 +8,9 @@ def spec():
         Row('L0', 'E1', 'L1', guard=0, actions=['l01']),
         Row('L1', 'E1', 'L0', guard=1),
         Row('L1', 'E2', 'L0', guard=2),
+        # E6 occurs in the innermost table only (not in Mid's): Root must still forward it two levels down
+        Row('L0', 'E6', 'L1', guard=11, actions=['l6']),
+        Row('L1', 'E6', None, guard=12, actions=['l6i']),
     ], internal=[
         Row(None, 'E4', None, guard=9, actions=['lowi']),
     ])
@@ -33,5 +36,6 @@ def spec():
         Row('Mid', 'E0', 'R0'),
         Row('R1', 'E0', 'Mid'),
         Row('R1', 'E1', 'R0', guard=0),
+        Row('Mid', 'E6', 'R1', guard=13, actions=['out6']),
     ])
-    return {'name': 'M03', 'events': ['E0', 'E1', 'E2', 'E3', 'E4', 'E5'], 'flags': [], 'root': root}
+    return {'name': 'M03', 'events': ['E0', 'E1', 'E2', 'E3', 'E4', 'E5', 'E6'], 'flags': [], 'root': root}
